@@ -452,8 +452,10 @@ func (r *Run) attribute(v *Violation) *Violation {
 			switch r.Engine {
 			case "client":
 				v.Property = "C15"
-				if strings.HasPrefix(v.Class, "deadlock") && r.Profile == "C10" {
-					v.Property = "C10" // a task that can never proceed also breaks exactly-once completion
+				if strings.HasPrefix(v.Class, "deadlock") && (r.Profile == "C10" || r.Profile == "C12") {
+					// a task that can never proceed also breaks exactly-once completion
+					// (C10) and, when it is the reader, every later delivery (C12)
+					v.Property = r.Profile
 				}
 			case "agent":
 				v.Property = "C14"
@@ -507,6 +509,11 @@ type ReplayFile struct {
 	Describe  any        `json:"describe,omitempty"`
 	Log       []string   `json:"log,omitempty"`
 	OrigLen   int        `json:"orig_decisions,omitempty"`
+	SeqUsed   bool       `json:"sequence_replay,omitempty"` // the run only fails after the earlier runs of its worker process
+	SeqFrom   uint64     `json:"sequence_from"`
+	SeqStride uint64     `json:"sequence_stride"`
+	// event-log hash of the run as first found (before minimisation)
+	OrigLogHash string `json:"orig_log_hash,omitempty"`
 }
 
 func sameViolation(a, b *Violation) bool {
